@@ -33,7 +33,9 @@ func c02Cemi(kind, infoLen, dataLen int) cemi.Message {
 		}
 		if kind <= 2 {
 			data := nondetBytes(dataLen)
-			data[0] &= 0x3F
+			if dataLen > 0 {
+				data[0] &= 0x3F
+			}
 			ld.Data = &cemi.AppData{Numbered: numbered, SeqNumber: seq, Command: cemi.APCI(nondetU8() & 15), Data: data}
 		} else {
 			ld.Data = &cemi.ControlData{Numbered: numbered, SeqNumber: seq, Command: nondetU8() & 3}
